@@ -136,6 +136,8 @@ type schedWorld struct {
 
 	dlgPriv []crypto.PrivKey
 	invPriv crypto.PrivKey
+
+	firstSeal string // set if the first sealing of a freshly constructed token changed it
 }
 
 var schedFixedTime = time.Date(2020, 1, 2, 3, 4, 5, 0, time.UTC)
@@ -162,9 +164,13 @@ func buildSchedWorld(p *SchedPlan) (*schedWorld, error) {
 		if err != nil {
 			return nil, err
 		}
+		before := recOf(tk).Ordered()
 		b, c, err := tk.ToSealed(w.cast.ent(d.Iss).priv)
 		if err != nil {
 			return nil, err
+		}
+		if after := recOf(tk).Ordered(); after != before && w.firstSeal == "" {
+			w.firstSeal = "delegation " + d.Label + ": " + firstDiff(before, after)
 		}
 		if p.Decoded {
 			tk, _, err = delegation.FromSealed(b)
@@ -188,9 +194,13 @@ func buildSchedWorld(p *SchedPlan) (*schedWorld, error) {
 	if err != nil {
 		return nil, err
 	}
+	before := recOf(inv).Ordered()
 	b, c, err := inv.ToSealed(w.cast.ent(v.Iss).priv)
 	if err != nil {
 		return nil, err
+	}
+	if after := recOf(inv).Ordered(); after != before && w.firstSeal == "" {
+		w.firstSeal = "invocation: " + firstDiff(before, after)
 	}
 	if p.Decoded {
 		inv, _, err = invocation.FromSealed(b)
@@ -582,6 +592,10 @@ func execSched(t *testing.T, pl Plan, seed uint64, o *Outcome) {
 		o.Probe("world_not_built")
 		return
 	}
+	o.Eval("C20")
+	if shared.firstSeal != "" {
+		o.Violate("C20", "token-mutated", "the first sealing of a freshly constructed token changed it: "+shared.firstSeal, map[string]string{"op": "ToSealed(first)"})
+	}
 	shared.warm(p)
 	raceLogRead(0)
 	_, raceLogPos = raceLogRead(raceLogPos)
@@ -800,6 +814,9 @@ func genSched(r *Rand, g GenCfg) Plan {
 		d.PolSpare = r.Chance(0.4)
 		if r.Chance(0.4) {
 			d.Exp = &far
+			if r.Chance(0.5) {
+				d.SubMilli = int64(r.Range(1, 999))
+			}
 		}
 		p.Dlgs = append(p.Dlgs, d)
 	}
